@@ -554,3 +554,68 @@ def pruned_and_edited_automata(tier, rng, rep):
             rep.case(key=(t, edit), nontrivial=True, sample=inp if (t, edit) == (0, "delete_vertex") else None)
             if len(rep.failures) >= 3:
                 return
+
+
+@bounded(P, "freely_reduced_enumeration_along_a_history", functions=["geometry_tools/representation.py:Representation.freely_reduced_elements", "geometry_tools/representation.py:Representation._set_generator",
+                                                                     "geometry_tools/automata/fsa.py:free_automaton"],
+         note="freely reduced enumeration on ONE representation object along a history: enumerate, add a generator with a new name, enumerate again, re-assign a generator, enumerate again: "
+              "each time every freely reduced word in the CURRENT generators is returned exactly once, with its image under the current matrices")
+def freely_reduced_enumeration_along_a_history(tier, rng, rep):
+    N = 20 if tier == 'thorough' else 6
+    rep.rule = "start with generator a (or a, b); add b, then c; re-assign a; lengths 0..3, maxlen on / off, with and without the word list"
+    rep.bound = f"{N} histories"
+
+    def reduced_words(gens, L, maxlen):
+        letters = [g for g in gens] + [g.upper() for g in gens]
+        out = []
+        for n in (range(L + 1) if maxlen else [L]):
+            for w in itertools.product(letters, repeat=n):
+                if all(w[i] != w[i + 1].swapcase() for i in range(n - 1)):
+                    out.append("".join(w))
+        return out
+
+    def rmat():
+        while True:
+            M = rng.integers(-2, 3, size=(2, 2)).astype(float)
+            if abs(abs(np.linalg.det(M)) - 1) < 1e-9:
+                return M
+    for t in range(N):
+        mats = {}
+        R = Representation()
+        hist = []
+        inp = {"round": t}
+
+        def check(stage):
+            gens = sorted(mats)
+            for L in (0, 1, 2, 3):
+                for maxlen in (True, False):
+                    want = sorted(reduced_words(gens, L, maxlen))
+                    ms, ws = R.freely_reduced_elements(L, maxlen=maxlen, with_words=True)
+                    if sorted(ws) != want:
+                        missing = [w for w in want if w not in ws][:4]
+                        rep.fail("each_freely_reduced_word_exactly_once", f"{stage}: generators {gens}, length {L}, maxlen={maxlen}: {len(ws)} words returned, {len(want)} expected (missing e.g. {missing})", {**inp, "history": list(hist), "length": L}); return False
+                    for Mx, w in zip(ms, ws):
+                        if not np.allclose(np.asarray(Mx, dtype=float), image(mats, w)):
+                            rep.fail("matrix_is_image_of_its_word", f"{stage}: {w!r}", {**inp, "history": list(hist), "word": w}); return False
+                    only = R.freely_reduced_elements(L, maxlen=maxlen)
+                    if len(only) != len(want):
+                        rep.fail("each_freely_reduced_word_exactly_once", f"{stage}: without the word list {len(only)} matrices for {len(want)} words", {**inp, "history": list(hist)}); return False
+            return True
+
+        def body():
+            first = ["a"] if t % 2 == 0 else ["a", "b"]
+            for g in first:
+                mats[g] = rmat(); R[g] = mats[g].copy()
+            hist.append("set " + ",".join(first))
+            if not check("after the first generators"):
+                return
+            for g in [x for x in "bc" if x not in mats]:
+                mats[g] = rmat(); R[g] = mats[g].copy(); hist.append("add " + g)
+                if not check(f"after adding the generator {g!r}"):
+                    return
+            mats["a"] = rmat(); R["a"] = mats["a"].copy(); hist.append("re-assign a")
+            check("after re-assigning a")
+        rep.attempt("enumeration_runs", inp, body)
+        rep.case(key=(t,), nontrivial=True, sample={"history": "set a; add b; add c; re-assign a"} if t == 0 else None)
+        if len(rep.failures) >= 3:
+            return
